@@ -85,6 +85,7 @@ func newSandbox() (*sandbox, error) {
 	// traps: description files that only an unvalidated name can reach
 	in("groups/a\\b.json", groupJSON("GROUP-TRAP-backslash", ""))
 	in("groups/.json", groupJSON("GROUP-TRAP-empty", ""))
+	in("groups/\\.json", groupJSON("GROUP-TRAP-backslash-only", ""))
 
 	ind("data")
 	in("data/config.json", fmt.Sprintf(`{"writableGroups":true,"users":{"root":{"password":%q,"permissions":"admin"}}}`+"\n", pwAdmin))
@@ -105,6 +106,8 @@ func newSandbox() (*sandbox, error) {
 	in("recordings/b/b/a", "REC-b/b-a")
 	ind("recordings/é")
 	in("recordings/é/a", "REC-eacute-a")
+	ind("recordings/\\") // trap directory
+	in("recordings/\\/a", "REC-TRAP-backslash-only")
 	ind("recordings/a\\b") // trap directory
 	in("recordings/a\\b/a", "REC-TRAP-backslash")
 
